@@ -1024,8 +1024,11 @@ def transform(fn, proceed, to_instrument=True, set_conformer=True):
     new_fn = _compile(filename, new_tree, freevars)
 
     fname = fn.__name__
-    save = glb.get(fname, None)
-    exec(new_fn, glb, glb)
+    # Define the new function in a scratch namespace: the module's own
+    # binding of this name (if any) must never be touched, not even
+    # temporarily (another thread may be resolving it)
+    namespace = {}
+    exec(new_fn, glb, namespace)
 
     try:
         from codefind import code_registry
@@ -1036,20 +1039,17 @@ def transform(fn, proceed, to_instrument=True, set_conformer=True):
         pass
 
     # Get the new function (populated with exec)
-    if "#WRAP" in glb:
+    if "#WRAP" in namespace:
         # If the function is a closure, we have created a function
         # called #WRAP that takes the closure variables as arguments
         # and returns the function that interests us.
-        actual_fn = glb.pop("#WRAP")(
+        actual_fn = namespace["#WRAP"](
             *[cell.cell_contents for cell in fn.__closure__]
         )
     else:
-        actual_fn = glb[fname]
+        actual_fn = namespace[fname]
 
     glb[fnsym] = actual_fn
-
-    # However, we don't want to change the existing mapping of fn
-    glb[fname] = save
 
     all_vars = transformer.used | transformer.assigned
 
@@ -1204,5 +1204,4 @@ class SyncedStackedTransforms(StackedTransforms):
             fn.__code__ = code
             fn.__ptera_info__ = info
             fn.__ptera_token__ = token
-            fn.__globals__[fn.__ptera_token__] = fn
         fn.__ptera_discard__ = False
